@@ -174,6 +174,7 @@ type Frame struct {
 	// map-range summarisation barrier
 	barrier *mapBarrier
 	deferd  bool
+	defersExternalOnly bool
 	named   map[string]namedVal // source-level names (from DebugRef), copy-on-write
 }
 
